@@ -765,6 +765,59 @@ func runAll(c *run.Ctx) {
 			interpolate(k, ls, t, maxAbs(t))
 		})
 	}
+	// Simplify on multi-geometries whose members collapse at different thresholds (tiny members
+	// next to spiky ones): the result must be valid or an error, whatever survives
+	for i := 0; i < c.N(1500, 30000); i++ {
+		c.Case("simplify-collapse", i, func(k *run.K) {
+			r := k.Rng
+			var polys []geom.Polygon
+			n := r.Range(2, 4)
+			for j := 0; j < n; j++ {
+				ox, oy := float64(50*j), float64(r.Range(0, 3))
+				switch r.Intn(3) {
+				case 0: // tiny triangle
+					polys = append(polys, geom.NewPolygonXY([]float64{ox, oy, ox, oy + 1, ox + 1, oy, ox, oy}))
+				case 1: // spiky shape whose simplification self-intersects
+					a, b := float64(r.Range(15, 25)), float64(r.Range(1, 4))
+					polys = append(polys, geom.NewPolygonXY([]float64{ox, oy, ox, oy + a, ox + a - b, oy + a, ox + a, oy + a + b, ox + a + b, oy + a, ox + 2*a, oy + a, ox + 2*a, oy, ox + a, oy + a + 1, ox, oy}))
+				default: // square with a small hole
+					a := float64(r.Range(6, 12))
+					polys = append(polys, geom.NewPolygonXY([]float64{ox, oy, ox + a, oy, ox + a, oy + a, ox, oy + a, ox, oy}, []float64{ox + 1, oy + 1, ox + 2, oy + 1, ox + 1, oy + 2, ox + 1, oy + 1}))
+				}
+			}
+			var g geom.Geometry = geom.NewMultiPolygon(polys).AsGeometry()
+			if !exact.ValidGeom(g).OK {
+				k.Skip("simplify-valid")
+				return
+			}
+			if r.Chance(1, 4) {
+				g = geom.NewGeometryCollection([]geom.Geometry{g, geom.NewLineStringXY(0, 0, 3, 1, 6, 0).AsGeometry()}).AsGeometry()
+			}
+			k.In("g", shared.WKT(g))
+			k.Nontrivial(string(g.AsBinary()))
+			for _, th := range []float64{0.5, 1, 2, 3, 4, 6, 10, float64(r.Range(1, 30))} {
+				var res geom.Geometry
+				var err error
+				if k.Lib("nopanic", func() { res, err = g.Simplify(th) }) {
+					continue
+				}
+				if err != nil {
+					k.Check("simplify-valid", true, "")
+					continue
+				}
+				var verr error
+				k.Lib("nopanic", func() { verr = res.Validate() })
+				ok := verr == nil
+				why := fmt.Sprint(verr)
+				if ok {
+					if v := exact.ValidGeom(res); !v.OK && v.Inconsistent == "" {
+						ok, why = false, v.Rule
+					}
+				}
+				k.Check("simplify-valid", ok, "Simplify(%g) returned an invalid geometry without an error: %s\n %s", th, why, res.AsText())
+			}
+		})
+	}
 	idx := 0
 	for dp := -320; dp <= 320; dp++ {
 		if c.Quick() && dp%2 != 0 && (dp < -20 || dp > 25) && dp != 309 && dp != -309 && dp != 307 {
